@@ -309,9 +309,8 @@ def sweep_groups(windows, thin=1, cap=400000):
 def gen_size_sweep(rng, thorough):
     """frame payload sizes swept value by value around the powers of two / usual buffer-pool sizes: FrameStream.Write ->
     WriteFrame over loopback TCP -> FrameStream.Read (stream mode) and WriteFrameToWriter -> ReadFrameFromReader (enc mode).
-    Every size goes through the Go-side predicate; the model comparison covers every size of the windows up to 8200 and, in
-    the quick tier, every 6th size (plus both ends) of the 16 K / 32 K / 64 K windows (all of them in the thorough tier):
-    the list model is slow on megabytes."""
+    Every size goes through the Go-side predicate; the model comparison covers every size of the windows up to 8200 in both
+    tiers and the 16 K / 32 K / 64 K windows in the thorough tier only (the list model is slow on megabytes)."""
     out = []
 
     def add(grp, nomodel):
@@ -328,9 +327,19 @@ def gen_size_sweep(rng, thorough):
         add(grp, False)
     for grp in sweep_groups(large):
         add(grp, not thorough)
-    if not thorough:
-        for grp in sweep_groups(large, thin=6, cap=200000):
-            add(grp, False)
+    return out
+
+
+def gen_listener(rng, n):
+    """the real CrossNodeListener.handleConnection: TargetReady frame + tunnel bytes in one write, cut anywhere, or the
+    tunnel bytes only after the frame was consumed"""
+    out = []
+    for i in range(n):
+        ln = rng.choice([0, 1, 20, 1000, 4075, 4096, 5000, 70000])
+        order = "separate" if i % 5 == 4 else "coalesced"
+        cuts = rng.choice([[], [], [rng.randrange(1, 21)], [21], [rng.randrange(22, 60)], [rng.randrange(1, 80) for _ in range(4)]])
+        out.append({"mode": "listener", "reader": hx(rand_id_string(rng)), "up_len": ln, "seed": rng.randrange(1 << 30),
+                    "order": order, "cuts": cuts})
     return out
 
 
@@ -590,7 +599,7 @@ def case_values(c, o):
         return [[0, fr, hb(o["wire"]), list(c["cuts"]), obs]]
     if o.get("skipped") or c.get("nomodel"):
         return []
-    if c["mode"] in ("conc", "fwd", "duplex", "halfclose", "pool"):
+    if c["mode"] in ("conc", "fwd", "duplex", "halfclose", "pool", "listener"):
         return []
     if c["mode"] == "dialog":
         kinds = {"w": 0, "cw": 1, "c": 2, "rn": 3, "ra": 4}
@@ -810,6 +819,7 @@ def run(ctx, only_cases=None):
         cases += gen_stream_tracker(rng, 600 if thorough else 80)
         cases += gen_dialog(rng, 1500 if thorough else 150)
         cases += gen_pool(rng, 200 if thorough else 24)
+        cases += gen_listener(rng, 300 if thorough else 40)
         cases += gen_size_sweep(rng, thorough)
         cases += gen_stream_hostile(rng, 600 if thorough else 60)
         cases += gen_stream_big(rng, thorough)
@@ -937,6 +947,11 @@ def run(ctx, only_cases=None):
         elif c["mode"] == "gated":
             dist["forwarder_gated_schedules"] = dist.get("forwarder_gated_schedules", 0) + 1
             if c["up"] and c["down"] and 0 in c["sched"] and 1 in c["sched"]:
+                nontrivial.add(h)
+        elif c["mode"] == "listener":
+            k = "listener_handover_%s" % c["order"]
+            dist[k] = dist.get(k, 0) + 1
+            if c["up_len"] > 0 and c["order"] == "coalesced":
                 nontrivial.add(h)
         elif c["mode"] == "pool":
             dist["pool_reuse_runs"] = dist.get("pool_reuse_runs", 0) + 1
